@@ -160,7 +160,11 @@ def neglected(case, wa):
     N[DR, DR] = 3 * V * iR * tl                 # rotation of the NED frame under displacement (rho x dr)
     N[DV, DR] = 3 * (w * V * tl + dgdlat) * iR  # variation of Earth/transport rate and gravity with position
     N[5, 2] += 2 * 9.8 / 6.378e6 * (2 * abs(case['alt']) / 6.378e6 + 3 * 0.0053)   # 2g/A taken at alt=0, GE
-    N[DV, DV] = 3 * V * iR * tl                 # transport-rate error times velocity
+    # DV <- DV: the Coriolis/transport block -(2 Omega + rho) x is exact at first order in the modified model
+    # (measured discrepancy over the whole lattice <= 2e-9 /s at 300 m/s, i.e. only the tau^2 and dt terms
+    # below); an a-priori slack of |V|/R here would hide a wrong factor on rho (seeded change C04-transport-
+    # rate-twice), so none is given
+    N[DV, DV] = 0.0
     N[DV, PH] = 3 * V * w                       # Coriolis / transport terms rotated by the attitude error
     N[PH, DR] = 3 * (V * iR * iR * tl * tl + geo.RATE * iR * 0)   # d rho / d position
     N[PH, DV] = 0.0
